@@ -1,4 +1,4 @@
-import BevySyncModel.Proofs.CompWork
+import BevySyncModel.Proofs.CompBound
 import BevySyncModel.Generated.Sync
 /-! # C09 — replication traffic is finite and self-quenching (component slice)
 
@@ -46,15 +46,30 @@ theorem C09_host_epoch_bounded (x : Option V) (s : State V) (as : List (Act V)) 
     (run ra false replace s as).sent ≤ s.sent + s.clients.length * writes as :=
   host_epoch_bounded x s as hc ha
 
-/-- **bounded work, a client writes — partial.**  Proved: no echo (above) and silence once drained.
-Missing: the numeric bound `sent ≤ sent₀ + N · writes` (one message up, at most N − 1 relayed) as a
-theorem; the trace oracle enforces `messages ≤ writes × clients` on every run. -/
-theorem C09_client_epoch_quenches_partial (w : Nat) (x : Option V) (s : State V) (as more : List (Act V))
+/-- **bounded work, a client writes.** However the frames interleave, an epoch sends at most
+`N · (number of application writes)` messages: each write costs at most one message to the host and one relay to each
+of the other `N − 1` clients; the host and the readers originate nothing. -/
+theorem C09_client_epoch_bounded (w : Nat) (x : Option V) (s : State V) (as : List (Act V))
+    (hn : (s.clients.map (·.id)).Nodup) (hw : ∃ c ∈ s.clients, c.id = w) (hc : Clean x s)
+    (ha : ∀ a ∈ as, ClientWrites w a) :
+    (run ra false replace s as).sent ≤ s.sent + s.clients.length * writes as :=
+  client_epoch_bounded w x s as hn hw hc ha
+
+/-- … and once the epoch has drained, further frames send nothing -/
+theorem C09_client_epoch_quenches (w : Nat) (x : Option V) (s : State V) (as more : List (Act V))
     (hn : (s.clients.map (·.id)).Nodup) (hw : ∃ c ∈ s.clients, c.id = w) (hc : Clean x s)
     (ha : ∀ a ∈ as, ClientWrites w a) (hq : Quiescent (run ra false replace s as))
     (hm : ∀ a ∈ more, isWrite a = false) :
     (run ra false replace (run ra false replace s as) more).sent = (run ra false replace s as).sent :=
   (clean_run_silent _ _ more (client_epoch_converges w x s as hn hw hc ha hq) hm).2
+
+/-- non-vacuity, client writer: two writes by client 1 with two other clients cost six messages (2 up, 4 relayed) -/
+example :
+    let s0 : State Nat := { clients := [{ id := 1 }, { id := 2 }, { id := 3 }] }
+    let as : List (Act Nat) := [.writeC 1 1, .detectC 1, .reactC 1, .writeC 1 2, .detectC 1, .reactC 1, .pollH 1 2, .flushH,
+      .flushH, .detectH, .reactH, .pollC 2 2, .flushC 2, .flushC 2, .detectC 2, .reactC 2, .pollC 3 2, .flushC 3, .flushC 3,
+      .detectC 3, .reactC 3]
+    (run false false replace s0 as).sent = 6 := by decide
 
 /-- non-vacuity: two writes to two clients cost four messages, and idle frames afterwards none -/
 example :
